@@ -282,4 +282,15 @@ M("startservice-register-before-thread", ["C19"], "logwriter.py",
   "        addDestination(self)\n        self._thread = threading.Thread(target=self._reader)\n        self._thread.start()", "C19.thread")
 B("threadedwriter-put-nowait", ["*"], [("logwriter.py", "        self._queue.put(data)", "        self._queue.put_nowait(data)")])
 
+# --- fourth batch: state / aliasing must-fire variants
+M("success-fields-class-level", ["C03", "C02"], "_action.py", "        self._successFields = {}\n        self._logger =", "        self._logger =", "")
+M("message-aliases-contents", ["C13"], "_message.py", "        self._contents = contents.copy()", "        self._contents = contents", "C13.copy")
+M("message-bind-mutates", ["C13"], "_message.py", "        contents = self._contents.copy()\n        contents.update(fields)", "        contents = self._contents\n        contents.update(fields)", "C13.copy")
+M("timestamp-default-argument", ["C02"], "_action.py", "    def log(self, message_type, **fields):\n        \"\"\"Log individual message.\"\"\"\n        fields[TIMESTAMP_FIELD] = time.time()",
+  "    def log(self, message_type, _now=time.time(), **fields):\n        \"\"\"Log individual message.\"\"\"\n        fields[TIMESTAMP_FIELD] = _now", "C02")
+M("buffer-list-class-level", ["C12"], "_output.py", "    def __init__(self):\n        self.messages = []\n\n    def __call__(self, message):", "    messages = []\n\n    def __call__(self, message):", "C12")
+M("memorylogger-lists-not-reset", ["C16"], "_output.py", "        self.messages = []\n        self.serializers = []\n        self.tracebackMessages = []\n        self._failed_validations = []",
+  "        self.messages = []\n        self.serializers = self.messages\n        self.tracebackMessages = []\n        self._failed_validations = []", "C16")
+M("registry-shared-default", ["C03"], "_errors.py", "    def __init__(self):\n        self.registry = {}", "    def __init__(self, registry={}):\n        self.registry = registry", "C03.state")
+
 VARIANTS = V
